@@ -1724,6 +1724,8 @@ void process_metadata_stack(mmd_engine * e, scratch_pad * scratch) {
 	meta * m;
 	short header_level = -10;
 	char * temp_char = NULL;
+	bool quotes_explicit = false;		// Has a `quotes language` key been seen?
+	short explicit_quotes = ENGLISH;
 
 	for (int i = 0; i < e->metadata_stack->size; ++i) {
 		// Check for certain metadata keys
@@ -1782,6 +1784,12 @@ void process_metadata_stack(mmd_engine * e, scratch_pad * scratch) {
 				scratch->quotes_lang = ENGLISH;
 			}
 
+			if (quotes_explicit) {
+				// `language` only sets the default -- an explicit
+				// `quotes language` wins, whichever key comes first
+				scratch->quotes_lang = explicit_quotes;
+			}
+
 			free(temp_char);
 		} else if (strcmp(m->key, "latexmode") == 0) {
 			if (scratch->output_format == FORMAT_LATEX) {
@@ -1818,6 +1826,9 @@ void process_metadata_stack(mmd_engine * e, scratch_pad * scratch) {
 			} else {
 				scratch->quotes_lang = ENGLISH;
 			}
+
+			quotes_explicit = true;
+			explicit_quotes = scratch->quotes_lang;
 
 			free(temp_char);
 		} else if (strcmp(m->key, "bibtex") == 0) {
